@@ -1313,6 +1313,13 @@ func c10R3(c *Ctx) {
 			noneConfigured := anyFact(facts, func(f Fact) bool {
 				return cmpFact(f, token.EQL, func(v ssa.Value) bool { return lenOfField(v, tenF) }, func(v ssa.Value) bool { n, ok := constInt(v); return ok && n == 0 })
 			})
+			if !(noTenant && noneConfigured) && onEveryFeasiblePath(fn, cl, func(f Fact) bool {
+				return cmpFact(f, token.EQL, func(v ssa.Value) bool { return v == tenant }, isEmptyStr)
+			}, func(f Fact) bool {
+				return cmpFact(f, token.EQL, func(v ssa.Value) bool { return lenOfField(v, tenF) }, func(v ssa.Value) bool { n, ok := constInt(v); return ok && n == 0 })
+			}) {
+				noTenant, noneConfigured = true, true
+			}
 			c.check(noTenant && noneConfigured, "C10.R3", fnName(fn)+"/default-verifier", cl.Pos(), "default verifier only when no tenant is named and none are configured",
 				"the default verifier can be used although a tenant was named or tenants are configured; facts "+factStrings(facts))
 			return
@@ -1398,9 +1405,27 @@ func c10R4(c *Ctx) {
 		good := false
 		allInstrs(v, func(i ssa.Instruction) {
 			if cl, ok := i.(*ssa.Call); ok && strings.HasSuffix(commonName(&cl.Call), "MultiTenantVerifier).Verify") {
-				if tc, ok := cl.Call.Args[2].(*ssa.Call); ok {
-					if cal := tc.Call.StaticCallee(); cal != nil && baseName(cal) == "parseTenant" {
+				if tc, ok := strip(cl.Call.Args[2]).(*ssa.Call); ok {
+					isTenantHeader := func(hc *ssa.Call) bool {
+						if commonName(&hc.Call) != "(net/http.Header).Get" {
+							return false
+						}
+						k, ok := constString(hc.Call.Args[1])
+						return ok && strings.EqualFold(k, "x-piko-tenant-id") && strings.HasSuffix(path(hc.Call.Args[0]), ".&Header")
+					}
+					if isTenantHeader(tc) {
 						good = true
+					} else if cal := tc.Call.StaticCallee(); cal != nil && inModule(cal) && cal.Blocks != nil {
+						// a helper all of whose returns are that header
+						all := true
+						for _, r := range returnsOf(cal) {
+							rv := returnValues(r)
+							hc, ok := strip(rv[0]).(*ssa.Call)
+							if len(rv) != 1 || !ok || !isTenantHeader(hc) {
+								all = false
+							}
+						}
+						good = all && len(returnsOf(cal)) > 0
 					}
 				}
 			}
